@@ -13,3 +13,6 @@ func TestKillChild(t *testing.T) { KillChildMain(t) }
 
 // TestFailStopChild is the child process of the failstop engine.
 func TestFailStopChild(t *testing.T) { FailStopChildMain(t) }
+
+// TestRealKillChild is the child process of the realkill cross-validation pass.
+func TestRealKillChild(t *testing.T) { RealKillChildMain(t) }
